@@ -9,3 +9,4 @@ INVARIANT SetsAreComponents
 INVARIANT EveryRegionHasASet
 INVARIANT LabelOrder
 INVARIANT FastIsDef
+INVARIANT LabelIsTraceNotion
